@@ -70,6 +70,57 @@ fn side_info(w: &World, repo: &Arc<ReadonlyRepo>) -> SideInfo {
         wcs: repo.view().wc_commit_ids().iter().map(|(n, c)| (n.as_str().to_string(), w.id(c).unwrap())).collect() }
 }
 
+/// a scripted side: ops in the C11 syntax (`n:parents:desc:tree`, `r:old:parents:desc:tree`, `a:old`,
+/// `b:name:target`, `w:ws:id`) plus `x:ws` (remove workspace); ids are the request ids
+fn run_scripted_side(ops: &[&str], w: &mut World, base: &Arc<ReadonlyRepo>) -> Option<Arc<ReadonlyRepo>> {
+    let list = |s: &str| -> Vec<usize> { if s == "-" { vec![] } else { s.split(',').map(|x| x.parse().unwrap()).collect() } };
+    let listu = |s: &str| -> Vec<u64> { if s == "-" { vec![] } else { s.split(',').map(|x| x.parse().unwrap()).collect() } };
+    let mut tx = base.start_transaction();
+    for op in ops {
+        let f: Vec<&str> = op.split(':').collect();
+        match f[0] {
+            "n" => { let t = make_tree(tx.repo_mut(), &listu(f[3])); let c = tx.repo_mut().new_commit(list(f[1]).iter().map(|p| w.cid(*p)).collect(), t).set_description(desc_str(f[2].parse().unwrap())).write().block_on().unwrap(); w.add(c); }
+            "r" => { let o: usize = f[1].parse().unwrap(); let t = make_tree(tx.repo_mut(), &listu(f[4]));
+                let c = tx.repo_mut().rewrite_commit(&w.commits[o]).set_parents(list(f[2]).iter().map(|p| w.cid(*p)).collect()).set_description(desc_str(f[3].parse().unwrap())).set_tree(t).write().block_on().unwrap(); w.add(c); }
+            "a" => { let o: usize = f[1].parse().unwrap(); tx.repo_mut().record_abandoned_commit(&w.commits[o]); }
+            "b" => { let t: Target = f[2].split(',').map(|x| if x == "x" { None } else { Some(x.parse().unwrap()) }).collect(); tx.repo_mut().set_local_bookmark_target(RefName::new(&bm_name(f[1].parse().unwrap())), to_ref_target(w, &t)); }
+            "w" => { tx.repo_mut().set_wc_commit(ws_name(f[1].parse().unwrap()), w.cid(f[2].parse().unwrap())).unwrap(); }
+            "x" => { let _ = tx.repo_mut().remove_workspace(&ws_name(f[1].parse().unwrap())).block_on(); }
+            _ => panic!("bad script op {op}"),
+        }
+    }
+    if !matches!(guard(|| tx.repo_mut().rebase_descendants().block_on()), Ok(Ok(_))) { return None; }
+    let side = tx.commit("side").block_on().unwrap();
+    sync_world(w, &side);
+    Some(side)
+}
+
+/// fixed scenario: base commits `parents/desc/tree;…`, bookmarks `name=id;…`, workspaces `ws=id;…`, sides
+struct Script { commits: &'static str, bms: &'static str, wcs: &'static str, sides: &'static [&'static [&'static str]] }
+
+const FIXED: &[Script] = &[
+    // disjoint work: A adds a child of 2, B adds a child of 1 and moves bookmark 1
+    Script { commits: "0/1/1;1/2/1,2", bms: "1=1", wcs: "1=2", sides: &[&["n:2:11:1,2,11"], &["n:1:12:1,12", "b:1:4"]] },
+    // A rewrites 1 (2 follows), B adds a child on the old 2 and moves the wc there: child and wc are rebased
+    Script { commits: "0/1/1;1/2/1,2", bms: "1=2", wcs: "1=2", sides: &[&["r:1:0:21:1"], &["n:2:22:1,2,22", "w:1:5"]] },
+    // A abandons 2, B moves bookmark 1 to 2: the bookmark ends on 2's parent
+    Script { commits: "0/1/1;1/2/1,2", bms: "1=1", wcs: "1=1", sides: &[&["a:2"], &["b:1:2"]] },
+    // both sides move the same bookmark differently: conflict; same move: kept
+    Script { commits: "0/1/1;0/2/2;0/3/3", bms: "1=1;2=1", wcs: "1=1", sides: &[&["b:1:2", "b:2:3"], &["b:1:3", "b:2:3"]] },
+    // both sides rewrite the same commit: divergent change, both kept
+    Script { commits: "0/1/1;1/2/1,2", bms: "1=1", wcs: "1=2", sides: &[&["r:1:0:31:1"], &["r:1:0:32:1"]] },
+    // working copy: moved by A only / removed by B / moved by both
+    Script { commits: "0/1/1;0/2/2;0/3/3", bms: "-", wcs: "1=1;2=1", sides: &[&["w:1:2", "w:2:2"], &["x:1", "w:2:3"]] },
+    // three sides
+    Script { commits: "0/1/1;1/2/1,2", bms: "1=2", wcs: "1=2", sides: &[&["n:2:41:1,2,41"], &["r:2:1:42:1,2"], &["a:1"]] },
+    // KNOWN FINDING opmerge:cyclic-concurrent-rebases — A moves 1 onto 2, B moves 2 onto 1
+    Script { commits: "0/1/-;0/2/2", bms: "-", wcs: "1=2", sides: &[&["r:1:2:103:-"], &["r:2:1:104:2"]] },
+    // KNOWN FINDING opmerge:cyclic-concurrent-rebases-panic — 1, 2←3←4; A: 4 onto 2 (+ new commits);
+    // B: 1 onto 4 and a child of 1; C: 2 onto 1
+    Script { commits: "0/0/1;0/2/2;2/0/2,3;3/4/2,3,4", bms: "-", wcs: "1=4;2=3",
+             sides: &[&["n:0:103:103", "r:4:2:4:2,4", "n:2:0:2", "w:1:6", "w:2:7"], &["r:1:4:104:1", "n:1:106:1", "w:1:2"], &["r:2:1:108:2"]] },
+];
+
 fn run_side(r: &mut Rng, w: &mut World, base: &Arc<ReadonlyRepo>, base_n: usize, counter: &mut u64) -> Option<Arc<ReadonlyRepo>> {
     let mut tx = base.start_transaction();
     let mut own: Vec<usize> = vec![];           // commits written by this side
@@ -127,7 +178,7 @@ fn run_side(r: &mut Rng, w: &mut World, base: &Arc<ReadonlyRepo>, base_n: usize,
 struct Chain { _test_repo: TestRepo, prev: Arc<ReadonlyRepo>, used: usize }
 impl Chain { fn fresh() -> Self { FLOOR.with(|f| f.borrow_mut().clear()); let t = TestRepo::init(); let prev = t.repo.clone(); Chain { _test_repo: t, prev, used: 0 } } }
 
-fn one(out: &mut Out, r: &mut Rng, cap: usize, chain: &mut Option<Chain>) {
+fn one(out: &mut Out, r: &mut Rng, cap: usize, chain: &mut Option<Chain>, script: Option<&Script>) {
     if chain.as_ref().is_none_or(|c| c.used >= 48) { *chain = Some(Chain::fresh()); }
     // taken out: an early return (discarded case) leaves several operation heads behind, so the
     // next case must start in a fresh repository
@@ -136,8 +187,16 @@ fn one(out: &mut Out, r: &mut Rng, cap: usize, chain: &mut Option<Chain>) {
     let mut w = World::new(repo0.store().root_commit());
     let mut tx = repo0.start_transaction();
     tx.repo_mut().set_view(jj_lib::op_store::View::make_root(repo0.store().root_commit_id().clone()));
-    let n = r.range(1, cap);
-    for i in 1..=n {
+    let script_commits: Vec<&str> = script.map_or(vec![], |sc| sc.commits.split(';').collect());
+    let n = if script.is_some() { script_commits.len() } else { r.range(1, cap) };
+    for c in &script_commits {
+        let f: Vec<&str> = c.split('/').collect();
+        let list = |s: &str| -> Vec<u64> { if s == "-" { vec![] } else { s.split(',').map(|x| x.parse().unwrap()).collect() } };
+        let t = make_tree(tx.repo_mut(), &list(f[2]));
+        let c = tx.repo_mut().new_commit(list(f[0]).iter().map(|p| w.cid(*p as usize)).collect(), t).set_description(desc_str(f[1].parse().unwrap())).write().block_on().unwrap();
+        w.add(c);
+    }
+    for i in 1..=(if script.is_some() { 0 } else { n }) {
         let mut ps: Vec<usize> = vec![if r.chance(1, 2) { i - 1 } else { r.below(i) }];
         if r.chance(1, 6) && i >= 3 { let q = r.range(1, i - 1); if q != ps[0] && ps[0] != 0 { ps.push(q); } }
         let cs: Vec<Commit> = ps.iter().map(|p| w.commits[*p].clone()).collect();
@@ -147,19 +206,26 @@ fn one(out: &mut Out, r: &mut Rng, cap: usize, chain: &mut Option<Chain>) {
         let c = tx.repo_mut().new_commit(ps.iter().map(|p| w.cid(*p)).collect(), t).set_description(desc_str(if r.chance(1, 4) { 0 } else { i as u64 })).write().block_on().unwrap();
         w.add(c);
     }
-    for b in 1..=r.below(3) { let t: Target = vec![Some(r.range(1, n))]; tx.repo_mut().set_local_bookmark_target(RefName::new(&bm_name(b)), to_ref_target(&w, &t)); }
-    for k in 1..=r.range(1, 2) { let c = if r.chance(1, 2) { n } else { r.range(1, n) }; tx.repo_mut().set_wc_commit(ws_name(k), w.cid(c)).unwrap(); }
+    if let Some(sc) = script {
+        let pairs = |s: &str| -> Vec<(usize, usize)> { if s == "-" { vec![] } else { s.split(';').map(|x| { let (a, b) = x.split_once('=').unwrap(); (a.parse().unwrap(), b.parse().unwrap()) }).collect() } };
+        for (b, c) in pairs(sc.bms) { tx.repo_mut().set_local_bookmark_target(RefName::new(&bm_name(b)), to_ref_target(&w, &vec![Some(c)])); }
+        for (k, c) in pairs(sc.wcs) { tx.repo_mut().set_wc_commit(ws_name(k), w.cid(c)).unwrap(); }
+    } else {
+        for b in 1..=r.below(3) { let t: Target = vec![Some(r.range(1, n))]; tx.repo_mut().set_local_bookmark_target(RefName::new(&bm_name(b)), to_ref_target(&w, &t)); }
+        for k in 1..=r.range(1, 2) { let c = if r.chance(1, 2) { n } else { r.range(1, n) }; tx.repo_mut().set_wc_commit(ws_name(k), w.cid(c)).unwrap(); }
+    }
     let base = tx.commit("base").block_on().unwrap();
     let base_info = side_info(&w, &base);
     let (bh, bb, bw) = view_strings(&w, &base);
     let mut req = format!("merge {} {bh} {bb} {bw}", (1..=n).map(|i| commit_req(&w, i)).collect::<Vec<_>>().join(";"));
 
-    let nsides = if r.chance(3, 4) { 2 } else { 3 };
+    let nsides = if let Some(sc) = script { sc.sides.len() } else if r.chance(3, 4) { 2 } else { 3 };
     let mut counter = 100u64;
     let mut sides: Vec<SideInfo> = vec![];
-    for _ in 0..nsides {
+    for k in 0..nsides {
         let from = w.commits.len();
-        let Some(side) = run_side(r, &mut w, &base, n, &mut counter) else { out.tally("result", "side-discarded"); out.impl_only(); return; };
+        let side = if let Some(sc) = script { run_scripted_side(sc.sides[k], &mut w, &base) } else { run_side(r, &mut w, &base, n, &mut counter) };
+        let Some(side) = side else { out.tally("result", "side-discarded"); out.impl_only(); return; };
         let (h, b, wc) = view_strings(&w, &side);
         let cs: Vec<String> = (from..w.commits.len()).map(|i| commit_req(&w, i)).collect();
         req += &format!(" {} {h} {b} {wc}", if cs.is_empty() { "-".into() } else { cs.join(";") });
@@ -279,9 +345,10 @@ pub fn run(cfg: &Cfg, out: &mut Out) {
     let mut r = cfg.rng(13);
     let total = cfg.n(1000, 12_000);
     let mut chain: Option<Chain> = None;
+    for sc in FIXED { one(out, &mut r, 0, &mut chain, Some(sc)); }
     for k in 0..total {
         let cap = if k < total / 8 { 2 } else if k < total / 3 { 4 } else { 6 };
-        one(out, &mut r, cap, &mut chain);
+        one(out, &mut r, cap, &mut chain, None);
     }
     out.note("random base repositories (≤6 commits) × 2–3 concurrent transactions from the same base (new/rewrite/abandon/bookmark/wc/workspace-removal ops) reconciled by load_at_head; criss-cross operation graphs are not generated".into());
 }
